@@ -5,9 +5,16 @@ package collection
 // real RollingWindow through its public API (NewRollingWindow, Add, Reduce) under the virtual
 // clock of lib/timex and compares every reduction (non-empty buckets as a multiset, totals)
 // with what the specification reports.
+//
+// Overlap steps (RollingWindowGen!Overlap): a Reduce runs in its own goroutine, its callback is held after
+// it has read `gate` buckets; meanwhile the virtual clock moves on by e ticks and another goroutine calls
+// Add (it is only waited for until it has either returned or is parked on a lock - never inside the
+// callback); then the callback is let go.  What the reduction handed out must be the specification's report
+// of ONE of the moments of that sequence; afterwards the add must be part of the window.
 
 import (
 	"fmt"
+	"runtime"
 	"sort"
 	"strings"
 	"sync"
@@ -77,6 +84,132 @@ func c09Compare(rw *RollingWindow, size int, want map[string]any, lastGap string
 			c09Canon(got), gsum, gcount, c09Canon(wb), wsum, wcount)
 }
 
+// c09Same compares collected buckets and totals with one specification report.
+func c09Same(got []c09bucket, gsum float64, gcount int64, want map[string]any) bool {
+	wb, wsum, wcount := c09Want(want)
+	return gcount == wcount && gsum == wsum && c09Canon(got) == c09Canon(wb)
+}
+
+func c09Show(want map[string]any) string {
+	wb, wsum, wcount := c09Want(want)
+	return fmt.Sprintf("{%s} sum=%g count=%d", c09Canon(wb), wsum, wcount)
+}
+
+//go:noinline
+func c09OverlapAdder(rw *RollingWindow, v float64, done chan struct{}) {
+	defer close(done)
+	rw.Add(v)
+}
+
+// c09AdderParked reports whether the goroutine running c09OverlapAdder is blocked acquiring a lock
+// (goroutine header of the runtime's stack dump: "sync.Mutex.Lock", "sync.RWMutex.Lock", "semacquire").
+func c09AdderParked(buf []byte) bool {
+	n := runtime.Stack(buf, true)
+	for _, g := range strings.Split(string(buf[:n]), "\n\n") {
+		if !strings.Contains(g, "c09OverlapAdder(") {
+			continue
+		}
+		head := g
+		if i := strings.IndexByte(g, '\n'); i >= 0 {
+			head = g[:i]
+		}
+		return strings.Contains(head, "Lock") || strings.Contains(head, "semacquire")
+	}
+	return false
+}
+
+var c09StackBuf = make([]byte, 1<<18)
+
+const c09BarrierLimit = 120 * time.Second
+
+type c09overlap struct {
+	got      []c09bucket
+	sum      float64
+	count    int64
+	calls    int
+	hit      bool // the callback was held: the reduction really overlapped the advance and the add
+	addEarly bool // the add returned while the callback was still held
+	infra    string
+}
+
+// c09RunOverlap executes one overlap step on the real window.
+func c09RunOverlap(rw *RollingWindow, clock *kit.Clock, gate int, e time.Duration, val float64) (o c09overlap) {
+	hitc, release, rdone := make(chan struct{}), make(chan struct{}), make(chan struct{})
+	go func() {
+		defer close(rdone)
+		read := func(b *Bucket) {
+			o.sum += b.Sum
+			o.count += b.Count
+			if b.Count > 0 || b.Sum != 0 {
+				o.got = append(o.got, c09bucket{b.Sum, b.Count})
+			}
+		}
+		rw.Reduce(func(b *Bucket) {
+			o.calls++
+			if gate == 0 && o.calls == 1 {
+				close(hitc)
+				<-release
+			}
+			read(b)
+			if gate > 0 && o.calls == gate {
+				close(hitc)
+				<-release
+			}
+		})
+	}()
+	limit := time.NewTimer(c09BarrierLimit)
+	defer limit.Stop()
+	select {
+	case <-hitc:
+		o.hit = true
+	case <-rdone:
+	case <-limit.C:
+		o.infra = "the reduction neither reached its gate nor returned"
+		return
+	}
+	clock.Advance(e)
+	adone := make(chan struct{})
+	if !o.hit {
+		// fewer buckets than the gate: nothing overlaps, the add simply follows
+		c09OverlapAdder(rw, val, adone)
+		return
+	}
+	go c09OverlapAdder(rw, val, adone)
+	// wait until the adder has returned or is parked on the window's lock
+	deadline := time.Now().Add(c09BarrierLimit)
+	for i := 0; ; i++ {
+		select {
+		case <-adone:
+			o.addEarly = true
+		default:
+		}
+		if o.addEarly || c09AdderParked(c09StackBuf) {
+			break
+		}
+		if time.Now().After(deadline) {
+			o.infra = "the overlapping Add neither returned nor parked on a lock"
+			break
+		}
+		if i < 50 {
+			runtime.Gosched()
+		} else {
+			time.Sleep(20 * time.Microsecond)
+		}
+	}
+	close(release)
+	for _, c := range []chan struct{}{rdone, adone} {
+		select {
+		case <-c:
+		case <-limit.C:
+			if o.infra == "" {
+				o.infra = "the reduction or the overlapping Add did not return after the callback was let go"
+			}
+			return
+		}
+	}
+	return
+}
+
 func c09GapClass(d, q, size int) string {
 	switch {
 	case d == 0:
@@ -89,7 +222,7 @@ func c09GapClass(d, q, size int) string {
 	return "gap>=window"
 }
 
-func runC09WindowCase(c kit.Case, size, q int, ignore bool, clock *kit.Clock) (v kit.Verdict) {
+func runC09WindowCase(c kit.Case, size, q int, ignore bool, clock *kit.Clock, rep *kit.Reporter) (v kit.Verdict) {
 	v = kit.Verdict{Case: c.Index, OK: true}
 	// an arbitrary, non-aligned creation instant
 	clock.Advance(time.Duration(7+c.Index%13) * time.Millisecond)
@@ -137,6 +270,49 @@ func runC09WindowCase(c kit.Case, size, q int, ignore bool, clock *kit.Clock) (v
 			if key, msg := c09Compare(rw, size, st, lastGap); key != "" {
 				return fail(key, msg)
 			}
+		case "overlap":
+			e, gate := kit.Num(st["e"]), kit.Num(st["gate"])
+			o := c09RunOverlap(rw, clock, gate, time.Duration(e)*c09Tick, float64(kit.Num(st["v"])))
+			if o.infra != "" {
+				return kit.Verdict{Case: c.Index, Infra: true, Msg: fmt.Sprintf("step %d (overlap gate=%d e=%d): %s", i, gate, e, o.infra)}
+			}
+			if o.calls > size {
+				return fail("C09:window:too-many-buckets", fmt.Sprintf("Reduce visited %d buckets of a window of %d", o.calls, size))
+			}
+			egap := c09GapClass(e, q, size)
+			if !o.hit {
+				rep.Count("overlap_not_reached", 1)
+				seq := st["seq"].(map[string]any)
+				if !c09Same(o.got, o.sum, o.count, seq) {
+					return fail("C09:window:wrong-buckets:"+lastGap, fmt.Sprintf("Reduce (visited %d buckets, gate %d not reached) saw {%s} sum=%g count=%d, specification %s",
+						o.calls, gate, c09Canon(o.got), o.sum, o.count, c09Show(seq)))
+				}
+			} else {
+				rep.Count("overlaps", 1)
+				rep.Count("overlaps_"+egap, 1)
+				if o.addEarly {
+					rep.Count("overlap_add_not_blocked", 1)
+				}
+				ok := false
+				var shown []string
+				for _, m := range kit.List(st["moments"]) {
+					mm := m.(map[string]any)
+					ok = ok || c09Same(o.got, o.sum, o.count, mm)
+					shown = append(shown, c09Show(mm))
+				}
+				if !ok {
+					return fail("C09:window:overlap:no-single-moment:"+egap, fmt.Sprintf(
+						"a Reduce held after %d of its %d buckets, overlapped by [clock +%d ticks = %d bucket boundaries; Add(%d) from another goroutine, returned while held: %v] "+
+							"saw {%s} sum=%g count=%d; the window before the advance / after the advance / after the add is %s",
+						gate, o.calls, e, kit.Num(st["s"]), kit.Num(st["v"]), o.addEarly, c09Canon(o.got), o.sum, o.count, strings.Join(shown, " / ")))
+				}
+			}
+			if key, msg := c09Compare(rw, size, st["after"].(map[string]any), "after-overlap"); key != "" {
+				return fail(key, "reduction after the overlapped add returned: "+msg)
+			}
+			if e > 0 {
+				lastGap = egap
+			}
 		case "finish":
 			step := kit.Num(st["step"])
 			for j, w := range kit.List(st["walk"]) {
@@ -175,6 +351,6 @@ func TestVerifC09Window(t *testing.T) {
 		if c.Index%shards != shard {
 			continue
 		}
-		rep.Put(runC09WindowCase(c, size, q, ignore, clock))
+		rep.Put(runC09WindowCase(c, size, q, ignore, clock, rep))
 	}
 }
